@@ -2,9 +2,10 @@
 # usage: run_all.sh SEED [tier]   -> /tmp/runall-SEED.txt
 seed=$1; tier=${2:-quick}
 out=/tmp/runall-$seed-$tier.txt; : > $out
-for p in $(cat /verif/enabled_checks.txt); do
+ROOT=$(cd "$(dirname "$0")" && pwd)
+for p in ${CHECKS:-$(cat $ROOT/enabled_checks.txt)}; do
   s=$(date +%s)
-  o=$(cd /verif && VERIF_SEED=$seed ./check $p --tier $tier 2>&1); rc=$?
+  o=$(cd $ROOT && VERIF_SEED=$seed ./check $p --tier $tier 2>&1); rc=$?
   e=$(date +%s)
   echo "$p rc=$rc wall=$((e-s))s $(echo "$o" | grep -c '^KNOWN-FINDING') known; $(echo "$o" | grep '^property=' | cut -c1-160)" >> $out
   if [ $rc -ne 0 ]; then echo "$o" | grep -v "^KNOWN\|^labels" | tail -15 | cut -c1-400 >> $out; fi
